@@ -40,7 +40,7 @@ func init() {
 			}
 			return changed >= 3 && noop >= 1
 		},
-		Rule:     "op sequences on two DList[int] (all Push/Insert/Move/Remove forms, node-inserting forms with detached nodes, PushBackDList/PushFrontDList incl. onto itself; handles 60% live / 25% removed / 15% of the other list) or on one SList[int] (index ops with indices -1..len+1); non-trivial = at least three operations changed a list and at least one mutator was a no-op (stale/foreign handle, out-of-range index, move onto itself); distinct by hash of the op list",
+		Rule:     "op sequences on two DList[int] (all Push/Insert/Move/Remove forms, node-inserting forms with detached nodes, PushBackDList/PushFrontDList incl. onto itself; handles 60% live / 25% removed / 15% of the other list) or on one SList[int] (index ops with indices -1..len+1, Len/Front/Back/Next observers incl. Next of removed nodes); non-trivial = at least three operations changed a list and at least one mutator was a no-op (stale/foreign handle, out-of-range index, move onto itself); distinct by hash of the op list",
 		Classify: classify,
 		Parallel: true,
 		Assumptions: []string{
@@ -61,7 +61,7 @@ func dumpOf(line string) string {
 func isMutator(l string) bool {
 	t := core.Toks(l)
 	switch t[0] {
-	case "front", "back", "next", "prev", "get", "new":
+	case "front", "back", "next", "prev", "get", "new", "len":
 		return false
 	}
 	return true
@@ -140,6 +140,11 @@ func corpus() []core.Case {
 		{Lines: []string{"@ C13 dlist n n", "pb A 1", "pb A 2", "pb A 3", "pb A 4", "mtf A 5", "mtb A 2", "mb A 3 2", "ma A 2 2", "ma A 2 5", "mb A 5 2", "pbl A A", "pfl A A", "rm A 4", "next 4", "prev 4", "ib A 9 4", "ia A 9 4", "ia A 9 5", "front A", "back A"}},
 		// foreign handles
 		{Lines: []string{"@ C13 dlist n n", "pb A 1", "pb B 2", "rm A 3", "rm B 2", "mtf A 3", "mb A 2 3", "ib A 5 3", "ia B 6 2", "inb A 2 3", "next 3", "prev 2"}},
+		// a zero-value list copied onto itself (empty, then growing), moves of a node that is already in
+		// place: e right before mark (move(e, e)), e right after mark, already first / last, last before first
+		{Lines: []string{"@ C13 dlist z z", "pbl A A", "pfl A A", "pb A 1", "pbl A A", "pfl A A", "len A", "mb A 5 4", "ma A 4 5", "mtb A 3", "mtf A 5", "mb A 3 5", "ma A 5 3", "mb A 4 4", "pfl B A", "pbl B B", "len B", "next 3", "prev 5", "rm A 4", "next 4", "prev 4", "rm B 4"}},
+		// SList: observers at sizes 0,1; Next of a removed node is nil and the node can be pushed back again
+		{Lines: []string{"@ C13 slist", "len", "front", "back", "pb 5", "front", "back", "next 0", "pb 6", "pb 7", "next 0", "rm 1", "next 1", "next 0", "pbn 1", "next 2", "next 1", "rmf", "next 0", "insn 1 0", "swap 0 2", "swap 2 0", "swap 1 1", "swap 0 3", "ins 3 8", "ins 4 9", "rm 4", "back", "len"}},
 		// SList: head/tail bookkeeping at sizes 0,1,2
 		{Lines: []string{"@ C13 slist", "rmf", "rm 0", "get 0", "pb 1", "rm 0", "pf 2", "rmf", "ins 5 3", "ins -1 4", "ins 1 5", "rm 2", "rm 1", "rm 0", "swap 0 0"}},
 		{Lines: []string{"@ C13 slist", "pb 1", "pb 2", "pb 3", "swap 0 2", "swap 2 1", "swap 1 3", "swap -1 0", "rm 2", "pb 4", "rm 0", "pf 5", "get 2", "get 3", "get -1", "new 9", "insn 1 5", "rm 1", "pbn 5", "rm 3", "pfn 5"}},
